@@ -235,10 +235,21 @@ func (r *Request) SetQueryString(query string) *Request {
 
 // SetFileReader set up a multipart form with a reader to upload file.
 func (r *Request) SetFileReader(paramName, filename string, reader io.Reader) *Request {
+	used := false
 	r.SetFileUpload(FileUpload{
 		ParamName: paramName,
 		FileName:  filename,
 		GetFileContent: func() (io.ReadCloser, error) {
+			if used { // asked again (retry attempt): rewind if possible, never upload the drained reader
+				s, ok := reader.(io.Seeker)
+				if !ok {
+					return nil, errFileReaderNoRewind
+				}
+				if _, err := s.Seek(0, io.SeekStart); err != nil {
+					return nil, err
+				}
+			}
+			used = true
 			if rc, ok := reader.(io.ReadCloser); ok {
 				return rc, nil
 			}
@@ -305,6 +316,7 @@ var (
 	errMissingParamName   = errors.New("missing param name in multipart file upload")
 	errMissingFileName    = errors.New("missing filename in multipart file upload")
 	errMissingFileContent = errors.New("missing file content in multipart file upload")
+	errFileReaderNoRewind = errors.New("multipart file upload from an io.Reader that cannot be rewound (not an io.Seeker) cannot be sent again")
 )
 
 // SetFileUpload set the fully custimized multipart file upload options.
